@@ -157,8 +157,8 @@ PROPS = {
     },
     'C14': {
         'level': 'proof',
-        'verus': [{'group': 'c14_pubsub'}, {'group': 'srv_pubsub'}],
-        'explanation': 'PubSubManager::publish returns exactly one entry per matching subscription and nothing else; subscribe/psubscribe/unsubscribe/punsubscribe keep the three maps in agreement, change only the issuing connection, and acknowledge each name in order with the count right after it; the message/acknowledgement formatters keep channel, pattern and payload bytes intact; Server::handle_publish appends to each receiving connection exactly the frames of its entries, in order, and replies with the number of entries',
+        'verus': [{'group': 'c14_pubsub'}, {'group': 'srv_pubsub'}, {'group': 'srv_wake', 'units': ['cleanup_select_step', 'cleanup_step', 'is_closing']}],
+        'explanation': 'PubSubManager::publish returns exactly one entry per matching subscription and nothing else; subscribe/psubscribe/unsubscribe/punsubscribe keep the three maps in agreement, change only the issuing connection, and acknowledge each name in order with the count right after it; the message/acknowledgement formatters keep channel, pattern and payload bytes intact; Server::handle_publish appends to each receiving connection exactly the frames of its entries, in order, and replies with the number of entries; disconnect: cleanup_connections selects every Closing connection (subscribed or not) and its removal step drops the subscriptions (unsubscribe_all as assumed contract; its loop bodies and last statement are under contract, its HashMap::iter_mut loops are not)',
     },
     'C15': {
         'level': 'proof',
